@@ -11,7 +11,7 @@ UnitAngle - a frequency w given by the rational point u = e^{jw} = c + js of the
             unchanged.
 """
 from __future__ import division
-import builtins, cmath, contextlib
+import builtins, cmath, contextlib, math
 from fractions import Fraction
 from vlib.exactq import ExactQ
 
@@ -140,6 +140,20 @@ class UnitAngle(object):
   def __rmul__(self, k):
     return ScaledAngle(self, complex(k))
   __mul__ = __rmul__
+
+  # code that special-cases "freq == 0" / "freq == pi" takes the same path for the exact points 1 / -1
+  def __eq__(self, other):
+    if isinstance(other, UnitAngle):
+      return self.u == other.u
+    if isinstance(other, (int, float)):
+      return (other == 0 and self.u == CQ(1)) or (other == math.pi and self.u == CQ(-1))
+    return NotImplemented
+
+  def __ne__(self, other):
+    r = self.__eq__(other)
+    return r if r is NotImplemented else not r
+
+  __hash__ = None
 
 
 class ScaledAngle(object):
